@@ -357,7 +357,7 @@ func GenHistory(r *rand.Rand, o GenOpts) ([]Op, Universe) {
 				if !o.Interleave || r.Float64() > 0.45 {
 					return
 				}
-				switch r.IntN(8) {
+				switch r.IntN(10) {
 				case 0:
 					g.emit(Op{K: "chmod", P: p, M: perms[r.IntN(len(perms))]})
 				case 1:
@@ -378,6 +378,13 @@ func GenHistory(r *rand.Rand, o GenOpts) ([]Op, Universe) {
 				case 7:
 					if d := path.Dir(p); d != "/" {
 						g.emit(Op{K: "removeall", P: d})
+					}
+				case 8, 9:
+					// the name changes its kind under the open handle
+					if e := g.emit(Op{K: "remove", P: p}); e.Class == "ok" {
+						if e := g.emit(Op{K: "mkdir", P: p, M: 0o755}); e.Class == "ok" && r.IntN(2) == 0 {
+							g.emit(Op{K: "writefile", P: path.Join(p, g.u.comp(r)), D: GenData(r, o.RS, &g.tag)})
+						}
 					}
 				}
 			}
